@@ -1818,7 +1818,9 @@ impl FunctionCompiler<'_> {
                     let default_val =
                         self.compile_and_cast_with_args(default.body, no_load, return_ty);
 
-                    if let Some(default_val) = default_val {
+                    if *self.tys[self.loc][default.body] == Ty::AlwaysJumps {
+                        self.compile_unreachable(Some("end of noreturn switch arm reached"));
+                    } else if let Some(default_val) = default_val {
                         self.builder
                             .ins()
                             .jump(exit_block, &[BlockArg::Value(default_val)]);
@@ -1846,7 +1848,9 @@ impl FunctionCompiler<'_> {
 
                     let body_val = self.compile_and_cast_with_args(arm.body, no_load, return_ty);
 
-                    if let Some(body_val) = body_val {
+                    if *self.tys[self.loc][arm.body] == Ty::AlwaysJumps {
+                        self.compile_unreachable(Some("end of noreturn switch arm reached"));
+                    } else if let Some(body_val) = body_val {
                         self.builder
                             .ins()
                             .jump(exit_block, &[BlockArg::Value(body_val)]);
